@@ -639,9 +639,16 @@ Fixpoint zpowm (a : Z) (e : positive) (p : Z) : Z :=
   | xO e' => let r := zpowm a e' p in (r * r) mod p
   | xI e' => let r := zpowm a e' p in (a * ((r * r) mod p)) mod p
   end.
+(* inverse mod p by the extended Euclidean algorithm (r0,r1,s0,s1): s0*a = r0 (mod p) *)
+Fixpoint zinv_loop (fuel : nat) (r0 r1 s0 s1 : Z) : Z :=
+  match fuel with
+  | O => s0
+  | S f => if r1 =? 0 then s0 else let q := r0 / r1 in zinv_loop f r1 (r0 - q * r1) s1 (s0 - q * s1)
+  end.
+Definition zinv (a p : Z) : Z := (zinv_loop (S (Z.to_nat (Z.log2 p)) * 2) (a mod p) p 1 0) mod p.
 Definition ZpDom (p : Z) : Dom Z :=
   mkDom Z 0 (1 mod p) (fun a b => (a + b) mod p) (fun a b => (a - b) mod p) (fun a b => (a * b) mod p)
-        (fun a => (- a) mod p) (fun a => if a =? 0 then 0 else zpowm a (Z.to_pos (p - 2)) p)
+        (fun a => (- a) mod p) (fun a => if a =? 0 then 0 else zinv a p)
         (fun a => a =? 0).
 
 (* ---------------- Z-level wrappers extracted for the correspondence run ---------------- *)
